@@ -59,6 +59,20 @@ func seqTransition(lab *envlab.Lab, ev string, body func() error) (state string,
 	return
 }
 
+// seqTransitionT: the same for a transition prepared by the caller (real or stand-in).
+func seqTransitionT(lab *envlab.Lab, ev string, tr environment.Transition) (state string, err error) {
+	src := lab.Env.CurrentState()
+	lab.Add(envlab.Record{Kind: envlab.KTransBegin, Event: ev, Src: src, State: src})
+	err = withWatchdog(func() error { return lab.Env.TryTransition(tr) })
+	state = lab.Env.CurrentState()
+	r := envlab.Record{Kind: envlab.KTransEnd, Event: ev, Src: src, State: state}
+	if err != nil {
+		r.Err = err.Error()
+	}
+	lab.Add(r)
+	return
+}
+
 func seqTeardown(lab *envlab.Lab, force bool) (state string, err error) {
 	src := lab.Env.CurrentState()
 	lab.Add(envlab.Record{Kind: envlab.KTeardownBegin, Event: "DESTROY", Src: src, State: src})
